@@ -29,12 +29,62 @@ type Fake struct {
 	labels map[string]string // label -> payment hash
 	byHash map[string]string // payment hash -> label
 	seq    int
+	order  []string // payment hashes in creation order
+	errSeq int      // rotates the flavour of ambiguous errors
 	// Expired: invoices (by payment hash) that listinvoices / waitinvoice report as expired, never paid
 	Expired map[string]bool
 }
 
 func New(n *lnmodel.Node) *Fake {
 	return &Fake{N: n, labels: map[string]string{}, byHash: map[string]string{}, Expired: map[string]bool{}}
+}
+
+// invoiceEntry: one element of a listinvoices answer (nil when the node does not answer for it).
+func (f *Fake) invoiceEntry(hash string) map[string]any {
+	inv, err := f.node().InvoiceStatus(hash)
+	if err != nil {
+		return nil
+	}
+	f.mu.Lock()
+	label, expired := f.byHash[hash], f.Expired[hash]
+	f.mu.Unlock()
+	status := "unpaid"
+	if inv.Settled {
+		status = "paid"
+	} else if expired {
+		status = "expired"
+	}
+	e := map[string]any{"label": label, "bolt11": inv.PaymentRequest, "payment_hash": hash, "amount_msat": inv.Amount * 1000, "status": status, "expires_at": inv.Expiry}
+	if inv.Settled {
+		e["payment_preimage"] = inv.Preimage
+	}
+	return e
+}
+
+// ambiguous answers a read-only call whose outcome the model left open ("error"): in turn a broken
+// connection, 401 (rune over its rate limit), 429, a 500 with an error object, a 500 with something
+// that is not JSON, and a 200 whose body is not the expected object.
+func (f *Fake) ambiguous(rw http.ResponseWriter) {
+	f.mu.Lock()
+	f.errSeq++
+	k := f.errSeq % 6
+	f.mu.Unlock()
+	switch k {
+	case 0:
+		transportError()
+	case 1:
+		writeJSON(rw, 401, clnErr{Code: 1501, Message: "Not permitted: too fast"})
+	case 2:
+		writeJSON(rw, 429, clnErr{Code: 1501, Message: "Too many requests"})
+	case 3:
+		writeJSON(rw, 500, clnErr{Code: -1, Message: "lightningd is shutting down"})
+	case 4:
+		rw.WriteHeader(502)
+		rw.Write([]byte("<html>Bad Gateway</html>"))
+	default:
+		rw.WriteHeader(200)
+		rw.Write([]byte("[]"))
+	}
 }
 
 // SetNode attaches the fake to the model node of a reloaded mint instance.
@@ -122,10 +172,28 @@ func (f *Fake) ServeHTTP(rw http.ResponseWriter, req *http.Request) {
 		label = strings.Trim(label, `"`)
 		f.labels[label] = inv.PaymentHash
 		f.byHash[inv.PaymentHash] = label
+		f.order = append(f.order, inv.PaymentHash)
 		f.mu.Unlock()
 		writeJSON(rw, 201, map[string]any{"bolt11": inv.PaymentRequest, "payment_hash": inv.PaymentHash, "expires_at": inv.Expiry})
 	case "/v1/listinvoices":
 		hash := str("payment_hash")
+		if _, filtered := in["payment_hash"]; !filtered {
+			// no filter: lightningd lists every invoice of the node, oldest first
+			f.mu.Lock()
+			order := append([]string(nil), f.order...)
+			f.mu.Unlock()
+			var all []any
+			for _, h := range order {
+				if e := f.invoiceEntry(h); e != nil {
+					all = append(all, e)
+				}
+			}
+			if all == nil {
+				all = []any{}
+			}
+			writeJSON(rw, 200, map[string]any{"invoices": all})
+			return
+		}
 		inv, err := f.node().InvoiceStatus(hash)
 		if err != nil {
 			if isTransport(err) {
@@ -213,7 +281,8 @@ func (f *Fake) ServeHTTP(rw http.ResponseWriter, req *http.Request) {
 				return
 			}
 			if isTransport(err) {
-				transportError()
+				f.ambiguous(rw)
+				return
 			}
 			writeJSON(rw, 500, clnErr{Code: -1, Message: err.Error()})
 			return
